@@ -66,7 +66,9 @@ def pdist_calc(
     # Calculate zero photon state probability afterwards
     total_prob = sum(pdist.values())
     if total_prob < 1 and circuit.loss_modes > 0:
-        pdist[State([0] * circuit.n_modes)] = 1 - total_prob
+        # Add missing probability to any existing vacuum state contribution
+        vacuum = State([0] * circuit.n_modes)
+        pdist[vacuum] = pdist.get(vacuum, 0) + 1 - total_prob
 
     return pdist
 
